@@ -648,6 +648,20 @@ def process_fn(tl, i, d, arg, out, unit):
             if body2 != body:
                 log.append('T10 `a OP b` on &BigInt -> core::ops::<Trait>::<method>(a, b)')
                 body = body2
+    for k, a, ls in sections:
+        if k == 'desugar-destructure':
+            # T13: destructuring assignment `(a, b) = e;` -> `let (__a, __b) = e; a = __a; b = __b;`, the desugaring the
+            # Rust reference gives for it (Verus 0.2026.09.13: "does not yet support ... destructuring assignment")
+            def _dd(m):
+                names = [x.strip() for x in m.group(2).split(',')]
+                tmps = ['verif_tmp_' + x for x in names]
+                return '%slet (%s) = %s; %s' % (m.group(1), ', '.join(tmps), m.group(3),
+                                                 ' '.join('%s = %s;' % (x, t) for x, t in zip(names, tmps)))
+            body2 = re.sub(r'(?m)^(\s*)\(([a-z_]\w*(?:\s*,\s*[a-z_]\w*)+)\)\s*=(?!=)\s*([^;]*);', _dd, body)
+            if body2 == body:
+                raise AnchorLoss('%s/%s: desugar-destructure: no destructuring assignment found' % (unit, qual))
+            log.append('T13 destructuring assignment desugared (Rust reference desugaring)')
+            body = body2
     # ---- insertions into body (compute positions on the *current* body text)
     inserts = []  # (pos, text, tag)
     loops = rs.find_loops(body, 0, len(body))
@@ -717,7 +731,7 @@ def process_fn(tl, i, d, arg, out, unit):
                 break
             if not placed:
                 out.lost_hints.append({'fn': qual, 'anchor': a})
-        elif k in ('spec', 'arm-pattern', 'closure-pattern', 'wrap', 'subst', 'name', 'desugar-ops', 'wrap-ok'):
+        elif k in ('spec', 'arm-pattern', 'closure-pattern', 'wrap', 'subst', 'name', 'desugar-ops', 'wrap-ok', 'desugar-destructure'):
             pass
         else:
             raise AnchorLoss('unknown section %s in %s' % (k, qual))
